@@ -265,7 +265,18 @@ func (w *World) Drive(t *rapid.T, l, other *LState, o HistOpts) *HistorySummary 
 			r := w.GenPostingsRequest(t, target, o.MaxPostings)
 			want := target.expectPostings(r)
 			w.noTrace(target, o.NoTrace, "a failed or dry-run create ("+r.describe()+")", func() bool {
-				out := w.CreateTx(target, r)
+				var out TxOutcome
+				if r.DryRun && rapid.Bool().Draw(t, "dryRunUnderDeadlock") {
+					// the first attempt of the dry run is the victim of a deadlock: the retry path replays it, and it
+					// must still move nothing
+					k := rapid.IntRange(1, 8).Draw(t, "deadlockAtStatement")
+					tr := withFault(w.Env.Sim, faultPlan{Kind: "deadlock", At: k}, func() { out = w.CreateTx(target, r) })
+					if tr.Fired && w.St != nil {
+						w.St.Class("dry-run-replayed-after-deadlock")
+					}
+				} else {
+					out = w.CreateTx(target, r)
+				}
 				if out.Kind != want {
 					code := "C25"
 					if want == ErrReferenceConflict || out.Kind == ErrReferenceConflict {
@@ -390,6 +401,13 @@ func (w *World) Drive(t *rapid.T, l, other *LState, o HistOpts) *HistorySummary 
 				m = map[string]string{"role": "x"}
 			}
 			dry := rapid.IntRange(0, 7).Draw(t, "dry") == 0
+			if other != nil && rapid.IntRange(0, 3).Draw(t, "onOther") == 0 {
+				// the neighbour's account of the same name gets metadata of its own
+				if kind := w.SaveAccountMeta(other, addr, m, false); kind != ErrNone {
+					w.V("C17", "saveAccountMeta(%s) on the neighbour ledger failed: %q", addr, kind)
+				}
+				return
+			}
 			w.noTrace(l, o.NoTrace, "a failed or dry-run saveAccountMeta", func() bool {
 				kind := w.SaveAccountMeta(l, addr, m, dry)
 				if kind != ErrNone {
